@@ -26,6 +26,7 @@ def run(tier, seed, verdict):
     foreign = 0
     for f in run_.findings + sim.findings:
         own = (f["stage"] in ("lookup", "ids", "init")
+               or (f["stage"] == "handle" and "@pos" in f["detail"].get("gpath", ""))
                or (f["action"] in OWN_ACTIONS and f["out"] in ("ok", "refused:DuplicateName") and f["facet"] == "content"))
         if own:
             verdict.violation(mr.key_of(f), f["detail"], f["replay"])
